@@ -41,7 +41,9 @@ Curated == <<
    MapV(<< <<A, MapV(<< <<B, IntV(2)>>, <<A, SeqV(<<NumV(3, 2), StrV(A)>>)>> >>)>>, <<B, SeqV(<<MapV(<< <<A, Null>> >>), StrV(AB), SeqV(<<>>), MapV(<<>>)>>)>> >>),
    SeqV(<<Null, BoolV(FALSE), BoolV(TRUE), IntV(-1), StrV(A)>>),
    MapV(<< <<A, SeqV(<<IntV(0), IntV(2), IntV(-1)>>)>>, <<B, IntV(2)>> >>),
-   SeqV(<<StrV(<<"a","b","a">>), StrV(<<"b">>)>>)
+   SeqV(<<StrV(<<"a","b","a">>), StrV(<<"b">>)>>),
+   \* text beyond ASCII: one atom is one character (length, split, contains, comparison count characters, not bytes)
+   StrV(<<"U+E9", "a">>), MapV(<< <<A, StrV(<<"U+E9">>)>>, <<B, SeqV(<<StrV(<<"a", "U+E9", "a">>), StrV(A)>>)>> >>)
 >>
 DocSeq == V1 \o MapsOver(V1s) \o SeqsOver(V1s, 2) \o Curated
 
